@@ -9,3 +9,4 @@ INFO = {'not_decided': ['AugAssign is outside the stated grammar (x += a is not 
         'stated_lemmas': ['composition lemma (DESIGN 2.2): per-construct contracts + table lemmas => names_at(read) is the set of '
                           'reaching definitions; spec vs CPython is trusted'], 'trusted': []}
 import contracts.composition  # noqa
+import props._all  # noqa
